@@ -1798,7 +1798,6 @@ def expr_of_function(fdef):
                     ctx=ast.Load())
         if all(isinstance(st.targets[0], ast.Name) or (
                 isinstance(st.targets[0], ast.Tuple) and
-                isinstance(st.value, ast.Name) and
                 N._unpack_defs(st.targets[0], st.value) is not None)
                for st in body[:-1]):
             import copy
